@@ -162,6 +162,11 @@ pub fn set_sig(set: &Gcv) -> String {
     )
 }
 
+/// Signature of a set that may come from a damaged archive (no BDD operation is performed on it).
+pub fn raw_sig(set: &Gcv) -> String {
+    format!("{}:{:016x}", set.as_bdd().size(), fnv1a(set.as_bdd().to_string().as_bytes()))
+}
+
 pub fn same_set(a: &Gcv, b: &Gcv) -> bool {
     a.as_bdd().num_vars() == b.as_bdd().num_vars() && a.as_bdd().xor(b.as_bdd()).is_false()
 }
